@@ -354,10 +354,61 @@ def r3_suppression(L, repo):
                   rows)
     else:
         L.require("C18.R3", FD, "TxMsg.trans", "atoms of trans()", ["None is self.burst"], atoms)
-    # RFMUTE
-    ci, pc = repo.need_method("ctrl_if_trx", "CTRLInterfaceTRX", "parse_cmd")
+    # RFMUTE: decided by folding the whole command handler (helpers, dispatch tables) for the boundary arguments, from both
+    # mute states; the shape of the store in parse_cmd is the proof attempt for every integer
     FT = rel("ctrl_if_trx")
     L.unit(FT)
+    folded = _rfmute_fold(L, repo)
+    if folded:
+        L.structural("C18.R3 shape of the RFMUTE store in parse_cmd", _rfmute_shape, L, repo)
+    else:
+        _rfmute_shape(L, repo)
+    # other writers of rf_muted: the constructor and code that runs on behalf of the command handler
+    from pyutil import owners
+    for m in repo.tk_modules():
+        for node, kind in attr_accesses(m.tree, "rf_muted"):
+            if kind != "load":
+                q = qualname(node)
+                own = owners(m, node) if folded else {q}
+                L.ob("C18.R3", m.rel, q, "writer of rf_muted", "FakeTRX.__init__ or the RFMUTE branch", sorted(own) or q,
+                     q in ("FakeTRX.__init__", "CTRLInterfaceTRX.parse_cmd") or (folded and m.name == "ctrl_if_trx" and own <= {"CTRLInterfaceTRX.parse_cmd"}),
+                     node.lineno)
+
+
+def _rfmute_fold(L, repo):
+    from cmdfold import fold_parse_cmd
+    FT = rel("ctrl_if_trx")
+    rows = []
+    try:
+        for before in (False, True):
+            for arg, want in (("-1", False), ("0", False), ("1", True), ("2", True), ("255", True)):
+                f = fold_parse_cmd(repo, ["RFMUTE", arg], {"rf_muted": before})
+                got = f.stores().get("rf_muted", before)
+                rows.append((before, arg, (0, want), (f.ret, bool(got) if isinstance(got, (bool, int)) else got)))
+            f = fold_parse_cmd(repo, ["SETPOWER", "3"], {"rf_muted": before})
+            rows.append((before, "<SETPOWER 3>", (0, before), (f.ret, f.stores().get("rf_muted", before))))
+        # 'RF mute ... suppresses all bursts WHILE ACTIVE': the state follows the LAST command, however often the same
+        # command was repeated before (whatever representation the handler keeps, it is carried from fold to fold)
+        for seq_, want in ((("1", "1", "0"), False), (("0", "0", "1"), True), (("1", "0", "0", "1", "1", "1", "0"), False)):
+            cur = False
+            for a_ in seq_:
+                f = fold_parse_cmd(repo, ["RFMUTE", a_], {"rf_muted": cur})
+                cur = f.stores().get("rf_muted", cur)
+            rows.append((False, "<sequence %s>" % " ".join(seq_), (0, want), (f.ret, bool(cur) if isinstance(cur, (bool, int)) else cur)))
+    except AnalysisError:
+        return False
+    for before, arg, want, got in rows:
+        L.require("C18.R3", FT, "CTRLInterfaceTRX.parse_cmd", "CMD RFMUTE %s with the transceiver %s: (status, muted afterwards)" % (
+            arg, "muted" if before else "not muted") if not arg.startswith("<") else (
+            "the commands RFMUTE %s one after the other, starting not muted: (last status, muted afterwards)" % arg[10:-1] if arg.startswith("<sequence") else
+            "another command (SETPOWER 3) with the transceiver %s leaves the mute state alone: (status, muted afterwards)" % ("muted" if before else "not muted")),
+            want, got)
+    return True
+
+
+def _rfmute_shape(L, repo):
+    ci, pc = repo.need_method("ctrl_if_trx", "CTRLInterfaceTRX", "parse_cmd")
+    FT = rel("ctrl_if_trx")
     cfgp = CFG(pc)
     REQ = params(pc)[1]
     st = [n for n in ast.walk(pc) if isinstance(n, ast.Assign) and canon(n.targets[0]).endswith(".rf_muted")]
@@ -368,13 +419,6 @@ def r3_suppression(L, repo):
              "self.trx.rf_muted = int(%s[1]) > 0 under verify_cmd(RFMUTE, 1)" % REQ, canon(s),
              canon(s) == "self.trx.rf_muted = int(%s[1]) > 0" % REQ and
              ("self.verify_cmd(%s, 'RFMUTE', 1)" % REQ, True) in lits, s.lineno)
-    # other writers of rf_muted
-    for m in repo.tk_modules():
-        for node, kind in attr_accesses(m.tree, "rf_muted"):
-            if kind != "load":
-                q = qualname(node)
-                L.ob("C18.R3", m.rel, q, "writer of rf_muted", "FakeTRX.__init__ or the RFMUTE branch", q,
-                     q in ("FakeTRX.__init__", "CTRLInterfaceTRX.parse_cmd"), node.lineno)
 
 
 def r4_nope_encodable(L, repo):
